@@ -85,10 +85,10 @@ theorem execStmt_ideal (rs ws : SideSem) (A : List (List String)) (N : List Stri
         exact fun h hh => hA h (halloc h hh)
       rw [hg, hset]
       cases hn : (hops rs.ptrs rl.path).all (nonNil N) with
-      | false => simp only [Bool.false_eq_true, ↓reduceIte]
+      | false => simp only [hn, Bool.false_eq_true, ↓reduceIte]
       | true =>
         have hd : derefOk rs.ptrs N rl.path = true := by rw [derefOk_eq]; exact hn
-        simp only [hd, hf, stratValue_eq, Bool.not_true, Bool.false_eq_true, ↓reduceIte]
+        simp only [hn, hd, hf, stratValue_eq, Bool.not_true, Bool.false_eq_true, ↓reduceIte]
         cases idealValue c.strat (readLeaf N rl) with
         | none => simp only
         | some v => simp only [hwr, ↓reduceIte]
